@@ -105,6 +105,10 @@ Definition chi2_noise_q := chi2_noise Qmult Qdiv.
 Definition truncated_q := truncated Qltb.
 (* the recorded deviation squared: (sqrt(2k) * x_mean / k)^2 = 2 x_mean^2 / k *)
 Definition chi2_var (x_mean k : Q) : Q := 2 * x_mean * x_mean / k.
+(* the bundled observation table was recorded at obs_dt seconds per spectrum: add_noise_from_obs without arrays scales every
+   column entry to the frame's own dt, afresh on every call (nothing is kept between calls) *)
+Definition obs_dt : Q := 14316557653333333 # 10000000000000000.
+Definition default_entry (row dt : Q) : Q := row * (dt / obs_dt).
 Definition get_intensity_q := get_intensity Qmult Qdiv.
 Definition get_snr_q := get_snr Qmult Qdiv.
 
